@@ -163,6 +163,17 @@ BOUNDARY = [s for s in gen.LEAF_SCHEMAS if "alias" not in s] + [
     "schema.list(schema.list(schema.list(schema.dict({...: ...}))))", "schema.list([..., schema.int, ...]).len(1, 9)",
     "schema.datetime(datetime.datetime(2020, 1, 2, 5, 4, 5, tzinfo=datetime.timezone(datetime.timedelta(hours=2))))",
     "schema.date(datetime.datetime(2020, 1, 2, 3, 4, 5))", "schema.dict({float('inf'): schema.int})",
+    # refinement chains with long arguments: however long the text gets, it stays ONE evaluable expression
+    "schema.str.alphabet('abcdefghijklmnopqrstuvwxyzABCDEFGHIJKLMNOPQRSTUVWXYZ0123456789_-').contains('abcdefghijklmnopqrstuvwxyz').len(26, 1000)",
+    "schema.str('abcdefghijklmnopqrstuvwxyz' * 4).alphabet('abcdefghijklmnopqrstuvwxyz').contains('xyzabc').len(104)",
+    "schema.str.regex('^[a-z]{3}-[0-9]{4}-[A-Z]{2}-(?:alpha|beta|gamma|delta|epsilon|zeta|eta|theta)-[0-9a-f]{8}-[0-9a-f]{4}$')",
+    "schema.float(123456.123456).min(-123456789.123456789).max(123456789.123456789).precision(6)", "schema.int(12345678901234567890).min(-12345678901234567890123456789).max(1234567890123456789012345678901234567890)",
+    "schema.list(schema.str.alphabet('abcdefghijklmnopqrstuvwxyzABCDEFGHIJKLMNOPQRSTUVWXYZ').contains('abcdefghijklmnopqrstuvwxyz').len(26, 99)).len(1, 1000000)",
+    "schema.bytes(b'0123456789abcdef' * 8)", "schema.list([schema.int(1), schema.int(2), schema.int(3), schema.int(4), schema.int(5), schema.int(6), schema.int(7), schema.int(8), schema.int(9), schema.int(10), schema.int(11), schema.int(12), schema.int(13), schema.int(14), schema.int(15), ...]).len(15, 1000)",
+    # ints beyond the float range (but printable): int parameters are printed as ints, whatever floats can hold
+    "schema.int(10**400)", "schema.int.min(-10**400).max(10**400)", "schema.int(-10**309).min(-10**310)",
+    "schema.list([schema.int(10**400), ...]).len(1, 10**400)", "schema.dict({10**400: schema.int.max(2**1024)})",
+    "schema.str.len(10**400)", "schema.str.len(0, 10**400)", "schema.list.len(2**1024, ...)", "schema.any(schema.int(2**1024), schema.float(1e308))",
 ]
 
 
